@@ -32,7 +32,7 @@ func init() {
 			"the scheduler is sampled, not enumerated; evidence reports rotations/seals overlapping reader calls and hook hits per point",
 			"a stall is decided by the orchestrator's wall-clock watchdog and reported as inconclusive with a goroutine dump",
 		},
-		Batches: tiered(12, 96),
+		Batches: tiered(16, 128),
 		Run:     runC07,
 		Race:    true,
 		Par:     8,
